@@ -291,7 +291,7 @@ func (x *Exec) unop(st *State, i *ssa.UnOp) {
 			x.regs[i] = Sc{c.Sub(c.IntBig(m), x.scalar(v))}
 		}
 	case token.ARROW:
-		panic(unsupported("channel receive"))
+		panic(fatalf("channel receive"))
 	default:
 		panic(unsupported("unop %s", i.Op))
 	}
@@ -485,13 +485,21 @@ func (x *Exec) bvNoOverflow(op token.Token, a, b *Term, bits int) *Term {
 		hi := new(big.Int).Sub(new(big.Int).Lsh(big1, uint(bits-1)), big1)
 		return c.InRange(r, lo, hi)
 	}
+	zero := c.Int(0)
+	neg := func(t *Term) *Term { return c.Lt(t, zero) }
 	switch op {
 	case token.ADD:
-		return c.mk("not", SBool, c.mk("bvsaddo_", SBool, a, b))
+		r := c.Add(a, b)
+		// overflow iff operands have the same sign and the result's sign differs
+		return c.Not(c.Or(c.And(c.Not(neg(a)), c.Not(neg(b)), neg(r)), c.And(neg(a), neg(b), c.Not(neg(r)))))
 	case token.SUB:
-		return c.mk("not", SBool, c.mk("bvssubo_", SBool, a, b))
+		r := c.Sub(a, b)
+		return c.Not(c.Or(c.And(c.Not(neg(a)), neg(b), neg(r)), c.And(neg(a), c.Not(neg(b)), c.Not(neg(r)))))
 	case token.MUL:
-		return c.mk("not", SBool, c.mk("bvsmulo_", SBool, a, b))
+		// compare with the 128-bit product
+		ext := func(t *Term) *Term { return c.mk("(_ sign_extend 64)", "(_ BitVec 128)", t) }
+		wide := c.mk("bvmul", "(_ BitVec 128)", ext(a), ext(b))
+		return c.mk("=", SBool, wide, ext(c.Mul(a, b)))
 	}
 	panic("bvNoOverflow")
 }
@@ -991,7 +999,7 @@ func (x *Exec) typeAssert(st *State, i *ssa.TypeAssert) {
 
 func (x *Exec) selectInstr(st *State, i *ssa.Select) {
 	if i.Blocking {
-		panic(unsupported("blocking select"))
+		panic(fatalf("blocking select"))
 	}
 	c := x.c
 	idx := c.Fresh("select", SInt)
@@ -1012,7 +1020,7 @@ type deferred struct {
 }
 
 func (x *Exec) deferCall(st *State, i *ssa.Defer) {
-	panic(unsupported("defer in %s", i.Parent()))
+	panic(fatalf("defer in %s (not modelled)", i.Parent()))
 }
 
 func (x *Exec) runDefers(st *State, i *ssa.RunDefers) {
